@@ -21,7 +21,7 @@ JVM = {"JAVA_TOOL_OPTIONS": "-XX:ParallelGCThreads=2 -XX:CICompilerCount=2"}
 def run_mc(chk, scr, table_path, tier):
     cfg = scr.file("FmtMC.cfg")
     consts = {"Alphabet": "{97, 35, 32, 10}", "MaxLen": 3 if tier == "quick" else 4, "Widths": "{1, 2}"}
-    write_cfg(cfg, spec="MCSpec", constants=consts, invariants=["TypeOK", "MeaningPreserved"],
+    write_cfg(cfg, spec="MCSpec", constants=consts, invariants=["TypeOK", "MeaningPreserved", "SomeResultExists"],
               properties=["ResultIsFixedPoint", "MeaningNeverChanges"])
     env = dict(JVM)
     env["LEX_TABLE"] = table_path
@@ -33,7 +33,7 @@ def run_mc(chk, scr, table_path, tier):
         chk.violation("fmt:spec-mc:%s" % ",".join(res.invariant_violated + res.action_prop_violated),
                       "FmtMC: the abstract formatter specification is inconsistent:\n" + res.error_trace_tail(60))
     cov = res.coverage()
-    chk.extra["mc_actions"] = {k: v[1] for k, v in cov.items() if k in ("Format", "MCInit", "DoFormat")}
+    chk.extra["mc_actions"] = {k: v[1] for k, v in cov.items() if k in ("MCInit", "DoFormat")}
     chk.extra["mc_constants"] = consts
 
 
